@@ -5464,8 +5464,8 @@ evdns_cache_lookup(struct evdns_base *base,
 			ai = evutil_addrinfo_append_(ai, ai_new);
 		}
 	}
-	EVDNS_UNLOCK(base);
 out:
+	EVDNS_UNLOCK(base);
 	if (n_found) {
 		if (!ai) {
 			return EVUTIL_EAI_ADDRFAMILY;
